@@ -21,8 +21,10 @@ from .. import common as C
 from . import _an
 
 PROP = "C08"
-GEN_REGIONS = ["CoreKernels", "CudaKernels"]
+GEN_REGIONS = ["CoreKernels", "CudaKernels", "NumpyKernels"]
 THEOREMS = {
+    # the NumPy fallbacks (translated each run) are the same reference estimator: every detrending theorem below holds for that backend too
+    "SpecKitV.Props.NumpyKernelsGen": ["gen_np_win_only_auto_eq_ref", "gen_np_win_only_csd_eq_ref", "gen_np_detrend0_auto_eq_ref", "gen_np_detrend0_csd_eq_ref", "gen_np_poly_auto_eq_ref", "gen_np_poly_csd_eq_ref"],
     "SpecKitV.Lemmas.Detrend": ["detr_neg_one", "detr0_add_const", "detr0_sum_zero", "detr_poly_add_span", "detr_poly_kills_span",
                                 "detr_poly_orthogonal", "detr_poly_idempotent", "detr_linear", "segDFT_add_const_order0", "segDFT_add_span",
                                 "detr_poly_keeps_orthogonal"],
